@@ -81,6 +81,19 @@ class CallMixin:
                     return self.call_repo(f.info, a, kwargs, st, k, self_val=f.self_val)
                 finally:
                     self._direct_call = False
+            if f.kind == "virtual":
+                # dynamic dispatch: the receiver's dynamic class may be a repo subclass that overrides the method
+                obj = f.self_val
+
+                def dispatch(i, s):
+                    if i == len(f.extra):
+                        return self.call_repo(f.info, [obj] + list(args), kwargs, s, k, self_val=obj)
+                    sub = f.extra[i]
+                    narrowed = Val(("ref", sub.name) + tuple(obj.ty[2:]), obj.t)
+                    return self.split(s, subclass(cls_of(obj.t), cls_const(sub.name)),
+                                      lambda s2: self.call_repo(sub.methods[f.name], [narrowed] + list(args), kwargs, s2, k, self_val=narrowed),
+                                      lambda s2: dispatch(i + 1, s2), label="dyn:%s" % sub.name)
+                return dispatch(0, st)
             if f.kind == "builtin":
                 return self.call_builtin(f.name, args, kwargs, st, k, f)
             if f.kind == "bound_builtin":
@@ -94,6 +107,8 @@ class CallMixin:
                 return self.call_method(f.self_val, f.name, args, kwargs, st, k)
             if f.kind == "specfunc":
                 return self.call_specfunc(f.name, args, st, k)
+            if f.kind == "specrec":
+                return self.call_specrec(f.name, args, st, k)
         if isinstance(f, ClsVal):
             return self.instantiate(f, args, kwargs, st, k)
         if isinstance(f, Val) and f.ty[0] == "ref":
@@ -304,7 +319,18 @@ class CallMixin:
             c = self.reg.contracts.get(newm.fqn)
             if c is None:
                 raise Unsupported("class %s defines __new__ (no contract)" % name)
-            return self.apply_contract(c, newm, self.bind_params(newm, [cv] + list(args), kwargs, st), st, k)
+
+            def after_new(obj, s):
+                init = self.repo.find_method(ci, "__init__")
+                if init is None or not (isinstance(obj, Val) and obj.ty[0] == "ref"):
+                    return k(obj, s)
+                s.constructing = s.constructing | {obj.t.get_id()}
+
+                def inited(_r, s2):
+                    s2.constructing = s2.constructing - {obj.t.get_id()}
+                    return k(obj, s2)
+                return self.call_repo(init, [obj] + list(args), kwargs, s, inited, self_val=obj)
+            return self.apply_contract(c, newm, self.bind_params(newm, [cv] + list(args), kwargs, st), st, after_new)
         obj = self.alloc(st, name)
         init = self.repo.find_method(ci, "__init__")
         if init is None:
@@ -901,6 +927,58 @@ class CallMixin:
 
     def elem_hook_all(self, st, recv, lv):
         pass
+
+    # ------------------------------------------------------------------ recursive spec functions
+    def specrec_decl(self, name, st):
+        self._specrec = getattr(self, "_specrec", {})
+        if name in self._specrec:
+            return self._specrec[name]
+        params, returns, body = self.reg.spec_rec[name]
+        sorts = []
+        for (pn, pt) in params:
+            sorts.append(z3.ArraySort(z3.IntSort(), sort_of(pt[1])) if pt[0] == "list" else sort_of(pt))
+        f = z3.RecFunction("spec!" + name, *(sorts + [sort_of(returns)]))
+        self._specrec[name] = f          # visible to recursive calls in the body
+        from .dsl import parse_expr
+        vs = [z3.Const("%s!%s" % (name, pn), so) for (pn, _pt), so in zip(params, sorts)]
+        fr = Frame("<spec %s>" % name, None, spec=True)
+        for (pn, pt), v in zip(params, vs):
+            if pt[0] == "list":
+                fr.locals[pn] = LVal(pt[1], v, z3.IntVal(10 ** 9))
+            else:
+                fr.locals[pn] = Val(pt, v)
+        base = st.copy()
+        base.pc = []
+        bodyv = self.eval_spec_term(parse_expr(body), base, fr, returns)
+        z3.RecAddDefinition(f, vs, bodyv)
+        return f
+
+    def eval_spec_term(self, node, st, fr, ty):
+        """evaluate a spec expression to a single term (forks merged by ite on their path conditions)"""
+        base = st.copy()
+        base.frames = base.frames + [fr]
+        base.in_spec += 1
+        n0 = len(base.pc)
+        results = []
+        self.ev(node, base, lambda v, s: results.append((v, s.pc[n0:])) or [])
+        if not results:
+            raise SpecError("spec expression produced no value")
+        out = None
+        for v, delta in reversed(results):
+            t = coerce(v, ty).t if not isinstance(v, PyConst) or v.v is not None else coerce(v, ty).t
+            out = t if out is None else z3.If(z3.And(*delta) if delta else z3.BoolVal(True), t, out)
+        return out
+
+    def call_specrec(self, name, args, st, k):
+        params, returns, body = self.reg.spec_rec[name]
+        f = self.specrec_decl(name, st)
+        zargs = []
+        for (pn, pt), a in zip(params, args):
+            if pt[0] == "list":
+                zargs.append(self.as_lval(st, a, pt[1]).arr if not isinstance(a, EmptyList) else self.empty_list(pt[1]).arr)
+            else:
+                zargs.append(coerce(a, pt).t)
+        return k(Val(returns, f(*zargs)), st)
 
     # ------------------------------------------------------------------ spec functions
     def call_specfunc(self, name, args, st, k):
